@@ -226,8 +226,17 @@ def run_job(spec):
                         if w.get('exception') is None or po.exc not in w['exception']:
                             res['witness_mismatch'].append({'inputs': w.get('inputs'), 'expected_exception': po.exc,
                                                             'got': w.get('exception'), 'out': got})
-                    elif w.get('skip_compare'):
-                        pass
+                    elif w.get('violated'):
+                        # the REAL code's output on this concrete witness fails the concrete oracle
+                        sig = spec.get('sig_prefix', spec['name'].split('[')[0]) + ':' + (w.get('signature') or w['violated'][0])
+                        res['violations'].append({'kind': 'violation', 'signature': sig, 'label': w['violated'][0],
+                                                  'job': spec['name'], 'inputs': w.get('inputs'), 'real_output': got,
+                                                  'exception': w.get('exception'), 'violated': w['violated'],
+                                                  'found_by': 'concrete oracle on a path witness',
+                                                  'replay_spec': {'module': spec['module'], 'func': spec['func'],
+                                                                  'kwargs': spec.get('kwargs', {}), 'inputs': w.get('inputs')}})
+                    elif w.get('skip_compare') or abstract_inconsistent(ctx, model0):
+                        res['witness_compare_skipped'] = res.get('witness_compare_skipped', 0) + 1
                     elif w.get('exception') is not None or not close(exp, got, spec.get('tol', 1e-6)):
                         res['witness_mismatch'].append({'inputs': w.get('inputs'), 'symbolic': exp, 'real': got,
                                                         'exception': w.get('exception')})
@@ -263,6 +272,21 @@ def run_job(spec):
         signal.setitimer(signal.ITIMER_REAL, 0)
     res['wall_s'] = time.time() - t0
     return res
+
+
+def abstract_inconsistent(ctx, model):
+    """log() is abstracted without refinement: a model may give the abstraction a value the real function
+    does not have; such a witness cannot be compared output-by-output with the real run."""
+    import math as _m
+    for kind, var, arg in getattr(ctx, 'abstract_terms', []):
+        try:
+            a = ev(model, arg)
+            v = ev(model, var)
+            if kind == 'log' and (float(a) <= 0 or abs(_m.log(float(a)) - float(v)) > 1e-9 * max(1.0, abs(float(v)))):
+                return True
+        except Exception:
+            return True
+    return False
 
 
 def preferred_model(ctx, prefer, fallback):
